@@ -50,6 +50,7 @@ type Config struct {
 	Validate   int               `json:"validate_vectors"`
 	Opaque     []string          `json:"opaque"` // callees replaced by "returns the zero value"
 	opaque     map[string]bool
+	MemLimitMB  int      `json:"mem_limit_mb"` // a path that pushes the heap beyond this is abandoned as UNWIND
 	Watch       []string `json:"watch"`        // two-thread mode: functions (name prefixes) with preemption points
 	MaxSwitches int      `json:"max_switches"` // two-thread mode: bound on context switches
 	OpaquePkgs []string `json:"opaque_pkgs"` // every function of these packages returns the zero value
@@ -172,7 +173,7 @@ func main() {
 		fmt.Fprintln(os.Stderr, err)
 		os.Exit(2)
 	}
-	cfg := &Config{MaxSteps: 2000000, ConcLimit: 300, Workers: workersDefault(), TimeoutMs: 60000, Solver: "z3-new", MaxPaths: 5000000, MaxViol: 20, Validate: 400}
+	cfg := &Config{MaxSteps: 2000000, ConcLimit: 300, Workers: workersDefault(), TimeoutMs: 60000, Solver: "z3-new", MaxPaths: 5000000, MaxViol: 20, Validate: 400, MemLimitMB: 12000}
 	if err := json.Unmarshal(data, cfg); err != nil {
 		fmt.Fprintln(os.Stderr, "config:", err)
 		os.Exit(2)
